@@ -14,18 +14,42 @@ theorem size_pos : ∀ j : J, 1 ≤ size j
   | .obj _ => by simp [size]; omega
 
 /-- first byte of a rendered well-formed value: never `]` or `}` -/
-theorem render_head (j : J) (h : WFj j) : ∃ c r, render j = c :: r ∧ c ≠ 93 ∧ c ≠ 125 := by
+theorem skipSp_cons (c : UInt8) (r : Bytes) (h : c ≠ 32) : skipSp (c :: r) = c :: r := by
+  unfold skipSp
+  split
+  · rename_i heq; injection heq with h1 _; exact absurd h1 h
+  · rfl
+
+theorem render_head (j : J) (h : WFj j) : ∃ c r, render j = c :: r ∧ c ≠ 93 ∧ c ≠ 125 ∧ c ≠ 32 := by
   cases j with
-  | str b => exact ⟨34, b ++ [34], by simp [render], by decide, by decide⟩
+  | str b => exact ⟨34, b ++ [34], by simp [render], by decide, by decide, by decide⟩
   | atom t =>
     obtain ⟨hne, hall⟩ := (by simpa [WFj] using h : atomOK t)
     cases t with
     | nil => exact absurd rfl hne
     | cons c r =>
       have hc := hall c (by simp)
-      refine ⟨c, r, by simp [render], ?_, ?_⟩ <;> (rintro rfl; simp [tokenChar] at hc)
-  | arr xs => exact ⟨91, renderElems xs ++ [93], by simp [render], by decide, by decide⟩
-  | obj kvs => exact ⟨123, renderMembers kvs ++ [125], by simp [render], by decide, by decide⟩
+      refine ⟨c, r, by simp [render], ?_, ?_, ?_⟩ <;> (rintro rfl; simp [tokenChar] at hc)
+  | arr xs => exact ⟨91, renderElems xs ++ [93], by simp [render], by decide, by decide, by decide⟩
+  | obj kvs => exact ⟨123, renderMembers kvs ++ [125], by simp [render], by decide, by decide, by decide⟩
+
+theorem skipSp_render (v : J) (hw : WFj v) (rest : Bytes) : skipSp (render v ++ rest) = render v ++ rest := by
+  obtain ⟨c, r, hr, _, _, h32⟩ := render_head v hw
+  rw [hr, List.cons_append]; exact skipSp_cons c _ h32
+
+theorem skipSp_elems (y : J) (r : List J) (hw : WFj y) (rest : Bytes) :
+    skipSp (renderElems (y :: r) ++ rest) = renderElems (y :: r) ++ rest := by
+  obtain ⟨c, tl, hr, _, _, h32⟩ := render_head y hw
+  cases r with
+  | nil => simp only [renderElems, hr, List.cons_append]; exact skipSp_cons c _ h32
+  | cons z r' => simp only [renderElems, hr, List.cons_append]; exact skipSp_cons c _ h32
+
+theorem skipSp_members (y : Bytes × J) (r : List (Bytes × J)) (rest : Bytes) :
+    skipSp (renderMembers (y :: r) ++ rest) = renderMembers (y :: r) ++ rest := by
+  obtain ⟨k, v⟩ := y
+  cases r with
+  | nil => simp only [renderMembers, List.cons_append]; exact skipSp_cons 34 _ (by decide)
+  | cons z r' => simp only [renderMembers, List.cons_append]; exact skipSp_cons 34 _ (by decide)
 
 mutual
 theorem parseV_render : ∀ (j : J) (fuel : Nat) (rest : Bytes),
@@ -124,6 +148,7 @@ theorem parseElems_render : ∀ (xs : List J) (_ : xs ≠ []) (fuel : Nat) (acc 
         simp only [renderElems, parseElems, List.append_assoc, List.cons_append]
         rw [parseV_render x f _ hw'.1 (sep44 _) h1]
         simp only []
+        rw [skipSp_elems y r (by simpa [WFl] using hw'.2.1) _]
         rw [parseElems_render (y :: r) (by simp) f (acc ++ [x]) rest hw'.2 h2]
         simp
 theorem parseMembers_render : ∀ (kvs : List (Bytes × J)) (_ : kvs ≠ []) (fuel : Nat)
@@ -140,6 +165,7 @@ theorem parseMembers_render : ∀ (kvs : List (Bytes × J)) (_ : kvs ≠ []) (fu
         simp only [renderMembers, parseMembers, List.append_assoc, List.cons_append]
         rw [scanStr_body 0 [] k _ hw'.1]
         simp only [List.nil_append]
+        rw [skipSp_render v hw'.2]
         rw [parseV_render v f (125 :: rest) hw'.2 (sep125 rest) hsz]
         simp
   | (k, v) :: y :: r, _, fuel, acc, rest, hw, hf => by
@@ -152,8 +178,10 @@ theorem parseMembers_render : ∀ (kvs : List (Bytes × J)) (_ : kvs ≠ []) (fu
         simp only [renderMembers, parseMembers, List.append_assoc, List.cons_append]
         rw [scanStr_body 0 [] k _ hw'.1]
         simp only [List.nil_append]
+        rw [skipSp_render v hw'.2.1]
         rw [parseV_render v f _ hw'.2.1 (sep44 _) h1]
         simp only []
+        rw [skipSp_members y r _]
         rw [parseMembers_render (y :: r) (by simp) f (acc ++ [(k, v)]) rest hw'.2.2 h2]
         simp
 end
